@@ -1,6 +1,5 @@
 (* C14: with the C type table the generator really uses (Gen/PyFuns.ft_c_type), the prototype
-   parameter lists are the documented ones for every configuration without a real field type
-   whose alignment differs from its size. *)
+   parameter lists are the documented ones for every well-formed configuration. *)
 From Coq Require Import List NArith Bool Lia String.
 Import ListNotations.
 From BT.Front Require Import Prefix CTypes CTypesProofs Protos.
@@ -12,12 +11,12 @@ Definition real_c_type (t : ft) (k : bool) : ctype :=
   match ft_c_type (ft_depth t) t k with Some c => c | None => CArith [] false end.
 
 Lemma real_c_type_doc : forall t k,
-    wf_ft t = true -> reals_naturally_aligned t = true -> real_c_type t k = doc_c_type t k.
+    wf_ft t = true -> real_c_type t k = doc_c_type t k.
 Proof.
-  intros t k Hw Hr. unfold real_c_type. rewrite (ctype_partial t k (ft_depth t) Hw Hr); [reflexivity|lia].
+  intros t k Hw. unfold real_c_type. rewrite (ft_c_type_doc t k (ft_depth t) Hw); [reflexivity|lia].
 Qed.
 
-Definition ft_ok (t : ft) : bool := wf_ft t && reals_naturally_aligned t.
+Definition ft_ok (t : ft) : bool := wf_ft t.
 Definition sstruct_ok (st : sstruct) : bool := forallb (fun m => ft_ok (snd m)) st.
 Definition osstruct_ok (st : option sstruct) : bool := match st with Some s => sstruct_ok s | None => true end.
 Definition ert_ok (e : ertc) : bool := osstruct_ok (e_spec e) && osstruct_ok (e_payload e).
@@ -38,7 +37,7 @@ Lemma params_of_doc : forall pfx st, sstruct_ok st = true ->
 Proof.
   intros pfx st. induction st as [|[n t] r IH]; intro H; [reflexivity|].
   cbn [sstruct_ok forallb snd] in H. apply andb_true_iff in H. destruct H as [Ht Hr].
-  unfold ft_ok in Ht. apply andb_true_iff in Ht. destruct Ht as [Hw Hn].
+  unfold ft_ok in Ht. pose proof Ht as Hw.
   rewrite !params_of_cons.
   rewrite (IH Hr). apply (f_equal (fun x => x ++ params_of doc_c_type pfx r)).
   destruct t; try (rewrite real_c_type_doc by assumption; reflexivity).
@@ -48,7 +47,7 @@ Lemma oparams_doc : forall pfx st, osstruct_ok st = true ->
     oparams real_c_type pfx st = oparams doc_c_type pfx st.
 Proof. intros pfx [s|] H; [apply params_of_doc; exact H|reflexivity]. Qed.
 
-Theorem protos_partial : forall c, cfg_ok c = true -> protos_of real_c_type c = doc_protos c.
+Theorem protos_doc : forall c, cfg_ok c = true -> protos_of real_c_type c = doc_protos c.
 Proof.
   intros c H. unfold doc_protos, protos_of. unfold cfg_ok in H. rewrite forallb_forall in H.
   induction (c_dsts c) as [|d r IH]; [reflexivity|].
